@@ -295,3 +295,64 @@ def c18_construct(kinds, path, trslist):
         elif g is not it:
             bad = True
     return bad, f'contents={[(type(x).__name__, getattr(x, "trs", x)) for x in got]}'
+
+
+# ------------------------------------------------------------------ C19
+@replay('c19_export')
+def c19_export(ci, atts, op, exists, append, nice):
+    import csv
+    import os
+    import tempfile
+    import pytrs
+    from pytrs.tractwriter.tractwriter import TractWriter
+    from props.c19_ref import CORPUS, cell, expected_value
+    txt, pq = CORPUS[ci]
+    d = pytrs.PLSSDesc(txt, parse_qq=pq)
+    tl = d.tracts
+    exp = [[expected_value(t, a) for a in atts] for t in tl]
+    try:
+        if op in ('tracts_to_csv', 'tractwriter'):
+            tmp = tempfile.mkdtemp(prefix='c19_')
+            fp = os.path.join(tmp, 'out.csv')
+            pre = 0
+            if exists:
+                with open(fp, 'w', newline='') as f:
+                    csv.writer(f).writerow(['old'])
+                pre = 0 if not append else 1
+            mode = 'a' if append else 'w'
+            nice_val = (False, True, ['H%d' % i for i in range(len(atts))], {atts[0]: 'Custom'})[nice]
+            try:
+                if op == 'tracts_to_csv':
+                    tl.tracts_to_csv(atts, fp, mode, nice_headers=nice_val)
+                else:
+                    w = TractWriter(atts, fp, mode, nice_headers=nice_val)
+                    w.write(tl)
+                    w.close()
+                with open(fp, newline='') as f:
+                    rows = list(csv.reader(f))
+            finally:
+                try:
+                    os.remove(fp)
+                except OSError:
+                    pass
+                os.rmdir(tmp)
+            rows = rows[pre:]
+            if not (exists and append):
+                rows = rows[1:]
+            want = [[str(cell(v)) for v in e] for e in exp]
+            return rows != want, f'rows read back {rows} expected {want}'
+        if op == 'to_dict':
+            recs = [[t.to_dict(*atts)[a] for a in atts] for t in tl]
+        elif op == 'to_list':
+            recs = [t.to_list(atts) for t in tl]
+        elif op in ('tracts_to_dict', 'iter_to_dict'):
+            recs = [[r[a] for a in atts] for r in (tl.tracts_to_dict(atts) if op == 'tracts_to_dict' else tl.iter_to_dict(*atts))]
+        elif op in ('tracts_to_list', 'iter_to_list'):
+            recs = [list(r) for r in (tl.tracts_to_list(*atts) if op == 'tracts_to_list' else tl.iter_to_list(atts))]
+        else:
+            recs = [[r[a] for a in atts] for r in d.tracts_to_dict(*atts)]
+            if [list(r) for r in d.tracts_to_list(atts)] != exp:
+                return True, 'PLSSDesc.tracts_to_list differs'
+        return recs != exp, f'records {recs} expected {exp}'
+    except Exception as e:  # noqa
+        return True, f'{op}({atts}) raised {type(e).__name__}: {e}'
